@@ -670,8 +670,10 @@ class TapeRecorder(object):
                 self._record_output(alias, invocation_number, args if static_function else args[1:], kwargs,
                                     data_handler)
 
-                # Record output may have failed and discarded current recording which would make should intercept false
+                # Record output may have failed and discarded current recording which would make should intercept false,
+                # recording may also have been disabled meanwhile, in that case the result cannot be captured
                 if not self._should_intercept:
+                    self._discard_recording_that_misses_interception()
                     return func(*args, **kwargs)
 
                 interception_key = self._output_interception_key(alias, invocation_number) + '.result'
